@@ -3,6 +3,7 @@
   Property theorems ONLY.  For ANY archive (any names, any blobs, any number of overwrites) and ANY kill point k.
 -/
 import Kapture.Lemmas.C12
+import Kapture.Gen.IoShapes
 
 namespace Kapture.C12
 open Kapture
@@ -66,5 +67,13 @@ theorem length_monotone (a : Archive) (k : Nat) : lengthBytes (crashAfter k a) â
 -- non-vacuity: an overwrite followed by a kill
 example : read (crashAfter 2 [("a.kpt", [1]), ("a.kpt", [2, 3]), ("b.kpt", [9])]) "a.kpt" = some [2, 3] := by decide
 example : lengthBytes [("a.kpt", [1]), ("a.kpt", [2, 3])] = 512 + 512 + 512 + 512 := by decide
+
+/-- the append-log model's assumptions about TarHandler are what the translator reads in the source on every run
+  (Gen/IoShapes.lean): an append is exactly "little-endian bytes, addfile, flush, re-index", flush() hands the bytes to the
+  operating system (`fileobj.flush()`), and a reader's index keeps the LAST member of a name -/
+theorem tar_code_is_the_model :
+    Gen.IoShapes.tarAppendIsAddfileThenFlush = true âˆ§ Gen.IoShapes.tarFlush = "self.fid.fileobj.flush()" âˆ§
+    Gen.IoShapes.tarIndexLastWins = true := by
+  decide
 
 end Kapture.C12
